@@ -183,6 +183,12 @@ def pdu_check(ctx, rep, rule):
     rp = flow.Prov(rb)
     t = rp.local(0)
     good = t[0] == "bin" and t[1] == "Eq" and {flow.fmt(t[2]), flow.fmt(t[3])} == {"arg1.0", "arg2"}
+    # equality spelled as (a ^ b) == 0 or a - b == 0
+    if not good and t[0] == "bin" and t[1] == "Eq" and ("const", 0) in (t[2], t[3]):
+        o = t[3] if t[2] == ("const", 0) else t[2]
+        while o[0] == "f":
+            o = o[1]
+        good = o[0] == "bin" and o[1] in ("BitXor", "Sub", "SubWithOverflow") and {flow.fmt(o[2]), flow.fmt(o[3])} == {"arg1.0", "arg2"}
     rep.check(rule, "RequestId::check|equality", good, "self.0 == v", "RequestId::check computes %s" % flow.fmt(t), rb.loc(),
               obligation=True)
 
@@ -278,6 +284,9 @@ def single_id(ctx, rep, rule):
         t = p.rvalue(st["rv"])
         mask = facts.const_value("reqid::MAX_REQUEST_ID")
         good = t[0] == "bin" and t[1] == "BitAnd" and (("const", mask) in (t[2], t[3]) or ("const", 0x7FFFFFFF) in (t[2], t[3])) and mask == 0x7FFFFFFF
+        # the low 31 bits as x.rem_euclid(2^31) (equal to x & 0x7fffffff for every i64, negative ones included)
+        if not good and t[0] == "call" and (t[1] or "").endswith("::rem_euclid") and len(t[2]) == 2 and t[2][1] == ("const", 0x80000000):
+            good = True
         rep.check(rule, "RequestId::get_next|mask", good, "id = random & 0x7fffffff", "id computed as %s with MAX_REQUEST_ID=%s" % (flow.fmt(t), mask),
                   gb.loc(line), obligation=True)
     for fn in ("send_request", "send_and_recv"):
